@@ -66,8 +66,6 @@ type vfC22Case struct {
 
 var vfBlocked = []int{3, 6, 8, 9}
 
-func vfIsBlocked(i int) bool { return i == 3 || i == 6 || i == 8 || i == 9 }
-
 // vfGenC22 draws a case. Unviolated members use senders 0,1,2 (secp256k1) and 4,5 (eth) and recipients 0,1,2,4,5.
 func vfGenC22(t *rapid.T) *vfC22Case {
 	pick := func(xs []int, label string) int { return xs[rapid.IntRange(0, len(xs)-1).Draw(t, label)] }
@@ -290,7 +288,7 @@ func vfRunC22(c *vfC22Case) vfC22Outcome {
 		mustAdmit(valid.tx, "first submission of T")
 	}
 	if v := has[clWrapper]; v != nil {
-		w := types.CloneTx(submission.tx)
+		w := submission.tx.Clone() // deep copy: CloneTx shares the Signature object with the valid twin
 		switch v.Variant {
 		case 0: // wrapper signature bytes tampered
 			if len(w.Signature.Signature) > 9 {
